@@ -156,3 +156,85 @@ def _inv_wits(self, f, blank_solutions, include_witnesses, _i):
 def _inv_wit_items(self, f, blank_solutions, include_witnesses, witness, _i2, _i):
     return fdata(f) == (old(fdata(f)) + _tx_body(self, blank_solutions, include_witnesses) + ser_witnesses_upto(self.txs_in, _i2)
                         + compact_size(len(witness)) + ser_items_upto(witness, _i))
+
+
+# ---------------------------------------------------------------- parsing one input / output (inverse of stream)
+@contract("pycoin.coins.bitcoin.TxIn:TxIn.parse")
+class txin_parse:
+    """field by field, the parsed input is what the consumed bytes say (with TxIn.stream's contract: its serialisation is
+    those bytes again whenever the script's length prefix is the canonical one; the parser also accepts over-long prefixes)"""
+
+    def samples(rng):
+        import io
+        t = TXIN.sample(rng)
+        junk = bytes(rng.randrange(256) for _ in range(rng.randrange(0, 4)))
+        f = io.BytesIO()
+        f.write(junk)
+        t.stream(f)
+        f.write(bytes(rng.randrange(256) for _ in range(rng.randrange(0, 3))))
+        f.seek(len(junk))
+        return {'cls': TxIn, 'f': f}
+
+    props = ["C07"]
+    sig = dict(cls=Const(TxIn), f=RFile())
+    assigns = ["f"]
+    returns = TXIN
+    options = {'reveal': ['ser_txin', 'varstr', 'compact_size']}
+
+    def requires(cls, f):
+        d, p = fdata(f), fpos(f)
+        return (len(d) >= p + 37 and cs_ok(d, p + 36) and cs_value(d, p + 36) < 2 ** 32
+                and len(d) >= p + 36 + cs_len(d[p + 36]) + cs_value(d, p + 36) + 4)
+
+    def ensures_inverse(cls, f, result):
+        d, p = old(fdata(f)), old(fpos(f))
+        k = cs_len(d[p + 36])
+        m = cs_value(d, p + 36)
+        n = 36 + k + m + 4
+        return (fpos(f) == p + n, fdata(f) == d, wf_txin(result), len(result.witness) == 0,
+                result.previous_hash == d[p:p + 32], le(result.previous_index, 4) == d[p + 32:p + 36],
+                result.script == d[p + 36 + k:p + 36 + k + m], le(result.sequence, 4) == d[p + 36 + k + m:p + n])
+
+
+@contract("pycoin.coins.bitcoin.TxOut:TxOut.parse")
+class txout_parse:
+    props = ["C07"]
+    sig = dict(cls=Const(TxOut), f=RFile())
+    assigns = ["f"]
+    returns = TXOUT
+    options = {'reveal': ['ser_txout', 'varstr', 'compact_size']}
+
+    def requires(cls, f):
+        d, p = fdata(f), fpos(f)
+        return (len(d) >= p + 9 and cs_ok(d, p + 8) and cs_value(d, p + 8) < 2 ** 32
+                and len(d) >= p + 8 + cs_len(d[p + 8]) + cs_value(d, p + 8))
+
+    def ensures_inverse(cls, f, result):
+        d, p = old(fdata(f)), old(fpos(f))
+        k = cs_len(d[p + 8])
+        m = cs_value(d, p + 8)
+        n = 8 + k + m
+        return (fpos(f) == p + n, fdata(f) == d, wf_txout(result), le(result.coin_value, 8) == d[p:p + 8],
+                result.script == d[p + 8 + k:p + n])
+
+
+# construction of TxIn / TxOut inside verified code yields a record value (the engine's representation of the elements of
+# symbolic transaction inputs/outputs): the constructors only store their arguments (TxIn also sets an empty witness)
+def _construct_txin(ip, args, kw):
+    names = ['previous_hash', 'previous_index', 'script', 'sequence']
+    vals = dict(zip(names, args))
+    vals.update(kw)
+    vals.setdefault('script', b"")
+    vals.setdefault('sequence', 4294967295)
+    vals['witness'] = ()
+    return TxInT.make(**vals)
+
+
+def _construct_txout(ip, args, kw):
+    vals = dict(zip(['coin_value', 'script'], args))
+    vals.update(kw)
+    return TxOutT.make(**vals)
+
+
+REG.rec_construct[TxIn] = _construct_txin
+REG.rec_construct[TxOut] = _construct_txout
